@@ -111,14 +111,25 @@ def r02_1(ctx: Ctx, rep: Report) -> None:  # noqa: C901
                 restored = False
                 for c in cls.mro:
                     for f in c.all_funcs():
+                        locals_ = {}
                         for n in own_nodes(f.node):
-                            if isinstance(n, ast.Assign) and any(isinstance(t, ast.Attribute) and src(t) == f"self.{attr}" for t in n.targets) and isinstance(n.value, ast.Call):
+                            if isinstance(n, (ast.Assign, ast.AnnAssign)) and n.value is not None:
+                                t0 = n.targets[0] if isinstance(n, ast.Assign) else n.target
+                                if isinstance(t0, ast.Name):
+                                    locals_.setdefault(t0.id, []).append(n.value)
+                        for n in own_nodes(f.node):
+                            if isinstance(n, ast.Assign) and any(isinstance(t, ast.Attribute) and src(t) == f"self.{attr}" for t in n.targets):
+                                v = n.value
+                                if isinstance(v, ast.Name) and len(locals_.get(v.id, [])) == 1:
+                                    v = locals_[v.id][0]  # built into a local first (validated), stored afterwards
+                                if not isinstance(v, ast.Call):
+                                    continue
                                 if f.name == "__init__":
-                                    if any(k.arg is None for k in n.value.keywords):
+                                    if any(k.arg is None for k in v.keywords):
                                         restored = True
                                     continue
-                                ctor_sites.append((f, n))
-                good = [1 for f, n in ctor_sites if any(k.arg == "platform" and src(k.value) in ("self._platform", "self.platform") for k in n.value.keywords)]
+                                ctor_sites.append((f, v))
+                good = [1 for f, v in ctor_sites if any(k.arg == "platform" and src(k.value) in ("self._platform", "self.platform") for k in v.keywords)]
                 if ctor_sites and len(good) == len(ctor_sites) and not restored:
                     ok, why = True, f"re-initialised: all {len(ctor_sites)} construction sites pass platform=self._platform"
             if ok:
